@@ -10,6 +10,7 @@ identical getters and, `step` being a function, bit-identical futures.
 import RubatoProofs.Lemmas.Shape
 import RubatoProofs.Fft.Control
 import RubatoProofs.Lemmas.FormulaTie
+import RubatoModel.Generated
 
 namespace Rubato.C10
 open Rubato
@@ -191,5 +192,30 @@ theorem reset_restores_the_constructor_position {ρ : Type} [RNum ρ] (L : Nat) 
     (- RNum.ofNat (L / 2) : ρ) = Formulas.sincIn_new_last_index L ∧
     (- RNum.ofNat (Fast.polyLen / 2) : ρ) = Formulas.fastIn_new_last_index :=
   ⟨rfl, rfl, rfl, rfl, rfl, rfl⟩
+
+end Rubato.C10
+
+namespace Rubato.C10
+open Rubato.Gen
+
+/-- tie G12 (syntactic, regenerated on every run): every field of the seven resampler structs that any method other than the
+constructors and `reset` writes is restored by `reset()` — by a whole-buffer zero fill, a whole-mask `true` fill or an
+assignment — or is scratch storage (next theorem).  A `reset()` that clears part of a buffer, loops over a sub-range or
+skips a field does not translate or does not satisfy this. -/
+theorem reset_restores_every_mutable_field :
+    ∀ r ∈ Reset.resetTable, r.2.2.1 = true → (r.2.2.2.1 = true ∨ r.2.2.2.2 = true) := by
+  decide
+
+/-- ... and `reset()` assigns nothing else: a field it writes is one that changes during use (an assignment to a
+construction-time constant such as `max_chunk_size` would change what later calls accept). -/
+theorem reset_touches_only_mutable_fields :
+    ∀ r ∈ Reset.resetTable, r.2.2.2.1 = true → r.2.2.1 = true := by
+  decide
+
+/-- the only storage exempted as scratch is the `resampler` (FftResampler) field of the three synchronous types (type ids
+4, 5, 6): `resample_unit` overwrites its buffers completely before reading them (tie G7 `fftUnit_*`, C02). -/
+theorem reset_scratch_fields :
+    (Reset.resetTable.filter (fun r => r.2.2.2.2)).map (fun r => r.1) = [4, 5, 6] := by
+  decide
 
 end Rubato.C10
